@@ -405,3 +405,855 @@ Proof.
 Qed.
 
 End Stage.
+
+(* ================= Part C: one iteration of the machine ================= *)
+
+(* ---- finite facts about the stream order ---- *)
+Lemma is_input_cases t : is_input_stream t = true -> t = 5 \/ t = 8.
+Proof.
+  unfold is_input_stream, memN, IS_INPUT_STREAM. cbn [existsb]. intros H.
+  destruct (N.eqb_spec t 5) as [E5|N5]; [left; exact E5|].
+  destruct (N.eqb_spec t 8) as [E8|N8]; [right; exact E8|]. discriminate H.
+Qed.
+
+Lemma role_streams_cases role :
+  role_input_streams role = [5] \/ role_input_streams role = [] \/ role_input_streams role = [5; 8].
+Proof.
+  unfold role_input_streams, ROLE_INPUT_STREAMS. cbn [find fst snd].
+  destruct (1 =? role); [left; reflexivity|].
+  destruct (2 =? role); [right; left; reflexivity|].
+  destruct (3 =? role); [right; right; reflexivity|].
+  right; left; reflexivity.
+Qed.
+
+Lemma cmp_some role t s : is_input_stream t = true -> is_input_stream s = true ->
+  cmp_input_streams role t (Some s) <> None.
+Proof.
+  intros Ht Hs. unfold cmp_input_streams. rewrite Ht, Hs. cbn [negb orb].
+  destruct (t =? s); discriminate.
+Qed.
+
+Lemma cmp_gt_input role sg s : cmp_input_streams role sg (Some s) = Some Gt ->
+  is_input_stream sg = true /\ is_input_stream s = true.
+Proof.
+  unfold cmp_input_streams. destruct (is_input_stream sg); destruct (is_input_stream s); cbn [negb orb]; try discriminate.
+  intros _. split; reflexivity.
+Qed.
+
+(* a record of the active stream or of an earlier one precedes every later stream *)
+Lemma cmp_later role t s sg : is_input_stream t = true ->
+  cmp_input_streams role sg (Some s) = Some Gt ->
+  (cmp_input_streams role t (Some s) = Some Eq \/ cmp_input_streams role t (Some s) = Some Lt) ->
+  cmp_input_streams role t (Some sg) = Some Lt.
+Proof.
+  intros Ht Hgt Hle. destruct (cmp_gt_input _ _ _ Hgt) as [Hsg Hs].
+  apply is_input_cases in Ht. apply is_input_cases in Hsg. apply is_input_cases in Hs.
+  unfold cmp_input_streams in *.
+  destruct (role_streams_cases role) as [Hr|[Hr|Hr]]; rewrite Hr in *;
+  destruct Ht as [-> | ->]; destruct Hsg as [-> | ->]; destruct Hs as [-> | ->];
+  vm_compute in Hgt; try discriminate Hgt;
+  vm_compute in Hle; destruct Hle as [Hle|Hle]; try discriminate Hle; reflexivity.
+Qed.
+
+Lemma input_not_others t : is_input_stream t = true ->
+  (t =? RT_AbortRequest) = false /\ (t =? RT_BeginRequest) = false /\ (t =? RT_GetValues) = false.
+Proof. intros H. apply is_input_cases in H. destruct H as [-> | ->]; repeat split; reflexivity. Qed.
+
+Section Machine.
+Variable maxc : N.
+
+Definition rl (a : ast) : N := r_role (a_req a).
+Definition ri (a : ast) : N := r_id (a_req a).
+Definition cur_st (st : sstate) : bool := match st with SStream => true | _ => false end.
+
+Lemma K_eq a u : K a u = a_parsed a ++ CF (rl a) (ri a) (a_stream a) (cur_st (a_st a)) (a_prem a) (a_pad a) (a_raw a ++ u).
+Proof. reflexivity. Qed.
+Lemma F_eq sg a u : F sg a u = CF (rl a) (ri a) sg false (a_prem a) (a_pad a) (a_raw a ++ u).
+Proof. reflexivity. Qed.
+Lemma R_eq a u : R maxc a u = a_out a ++ RA maxc (ri a) (a_st a) (a_prem a) (a_pad a) (a_raw a ++ u).
+Proof. reflexivity. Qed.
+
+Definition at_term (a : ast) : bool :=
+  at_terminator (rl a) (ri a) (a_stream a) (a_prem a) (a_pad a) (a_raw a).
+
+Definition cap_rel (l l' : alstate) : Prop :=
+  match acap l with
+  | None => acap l' = None /\ s_dest (ares l') = s_dest (ares l) /\
+            exists d, a_parsed (al l') = a_parsed (al l) ++ d /\ s_stream (ares l') = s_stream (ares l) + len d
+  | Some c => exists d c', acap l' = Some c' /\ a_parsed (al l') = a_parsed (al l) /\
+            s_dest (ares l') = s_dest (ares l) ++ d /\ s_stream (ares l') = s_stream (ares l) + len d /\
+            c' + len d = c
+  end.
+
+Record pres (l l' : alstate) : Prop := mkPres {
+  p_B : a_B (al l') = a_B (al l);
+  p_space : a_space (al l') = a_space (al l);
+  p_req : a_req (al l') = a_req (al l);
+  p_stream : a_stream (al l') = a_stream (al l);
+  p_size : len (a_parsed (al l')) + len (a_raw (al l')) <= len (a_parsed (al l)) + len (a_raw (al l));
+  p_raw : suffix (a_raw (al l')) (a_raw (al l));
+  p_K : forall u, s_dest (ares l) ++ K (al l) u = s_dest (ares l') ++ K (al l') u;
+  p_F : forall sg u, later_stream (al l) sg -> F (Some sg) (al l) u = F (Some sg) (al l') u;
+  p_R : forall u, R maxc (al l) u = R maxc (al l') u;
+  p_out : exists o, a_out (al l') = a_out (al l) ++ o /\ s_output (ares l') = s_output (ares l) + len o;
+  p_cap : cap_rel l l'
+}.
+
+Definition linv (l : alstate) : Prop := a_inv (al l) /\ (acap l <> None -> a_parsed (al l) = []).
+
+Lemma cap_rel_refl l : cap_rel l l.
+Proof.
+  unfold cap_rel. destruct (acap l) as [c|].
+  - exists [], c. rewrite app_nil_r. change (len (@nil N)) with 0. repeat split; try reflexivity; lia.
+  - repeat split. exists []. rewrite app_nil_r. change (len (@nil N)) with 0. split; [reflexivity|lia].
+Qed.
+
+Lemma pres_refl l : pres l l.
+Proof.
+  constructor; try reflexivity; try lia.
+  - apply suffix_refl.
+  - exists []. rewrite app_nil_r. change (len (@nil N)) with 0. split; [reflexivity|lia].
+  - apply cap_rel_refl.
+Qed.
+
+Lemma cap_rel_trans l1 l2 l3 : cap_rel l1 l2 -> cap_rel l2 l3 -> cap_rel l1 l3.
+Proof.
+  unfold cap_rel. intros H1 H2. destruct (acap l1) as [c|].
+  - destruct H1 as [d [c' [Hc [Hp [Hd [Hs Hcc]]]]]]. rewrite Hc in H2.
+    destruct H2 as [d2 [c2 [Hc2 [Hp2 [Hd2 [Hs2 Hcc2]]]]]].
+    exists (d ++ d2), c2. rewrite len_app. repeat split.
+    + exact Hc2.
+    + congruence.
+    + rewrite Hd2, Hd, app_assoc. reflexivity.
+    + lia.
+    + lia.
+  - destruct H1 as [Hc [Hd [d [Hp Hs]]]]. rewrite Hc in H2.
+    destruct H2 as [Hc2 [Hd2 [d2 [Hp2 Hs2]]]].
+    split; [exact Hc2|]. split; [congruence|].
+    exists (d ++ d2). rewrite len_app. split.
+    + rewrite Hp2, Hp, app_assoc. reflexivity.
+    + lia.
+Qed.
+
+Lemma later_stream_pres l l' sg : pres l l' -> later_stream (al l) sg -> later_stream (al l') sg.
+Proof. intros H Hl. unfold later_stream in *. rewrite (p_stream _ _ H), (p_req _ _ H). exact Hl. Qed.
+
+Lemma pres_trans l1 l2 l3 : pres l1 l2 -> pres l2 l3 -> pres l1 l3.
+Proof.
+  intros H1 H2. constructor.
+  - rewrite (p_B _ _ H2). apply (p_B _ _ H1).
+  - rewrite (p_space _ _ H2). apply (p_space _ _ H1).
+  - rewrite (p_req _ _ H2). apply (p_req _ _ H1).
+  - rewrite (p_stream _ _ H2). apply (p_stream _ _ H1).
+  - pose proof (p_size _ _ H1). pose proof (p_size _ _ H2). lia.
+  - apply (suffix_trans _ _ _ (p_raw _ _ H2) (p_raw _ _ H1)).
+  - intros u. rewrite (p_K _ _ H1 u). apply (p_K _ _ H2).
+  - intros sg u Hl. rewrite (p_F _ _ H1 sg u Hl). apply (p_F _ _ H2). apply (later_stream_pres _ _ _ H1 Hl).
+  - intros u. rewrite (p_R _ _ H1 u). apply (p_R _ _ H2).
+  - destruct (p_out _ _ H1) as [o1 [Ho1 Hs1]]. destruct (p_out _ _ H2) as [o2 [Ho2 Hs2]].
+    exists (o1 ++ o2). rewrite len_app. split.
+    + rewrite Ho2, Ho1, app_assoc. reflexivity.
+    + lia.
+  - apply (cap_rel_trans _ _ _ (p_cap _ _ H1) (p_cap _ _ H2)).
+Qed.
+
+Definition cont_post (l l' : alstate) : Prop :=
+  pres l l' /\ linv l' /\ s_end (ares l') = s_end (ares l).
+
+Lemma cont_post_trans l1 l2 l3 : cont_post l1 l2 -> cont_post l2 l3 -> cont_post l1 l3.
+Proof.
+  intros [P1 [I1 E1]] [P2 [I2 E2]]. split; [apply (pres_trans _ _ _ P1 P2)|]. split; [exact I2|congruence].
+Qed.
+
+Definition head_err (rid : N) (head : bytes) : option perr :=
+  match hdr_decode head with
+  | HBadVersion v => Some (EUnknownVersion v)
+  | HBadType _ => None
+  | HOk t id cl pl =>
+    if is_input_stream t && (id =? rid) then None
+    else if (t =? RT_AbortRequest) && (id =? rid) then Some EAbortRequest else None
+  end.
+
+Definition err_at (a : ast) (e : perr) : Prop :=
+  a_prem a = 0 /\ a_pad a = 0 /\ HEADER_LEN <= len (a_raw a) /\
+  head_err (ri a) (take HEADER_LEN (a_raw a)) = Some e.
+
+Definition flow_post (l : alstate) (fl : aflow) : Prop :=
+  match fl with
+  | AContinue l' => cont_post l l' /\ len (a_raw (al l')) + 8 <= len (a_raw (al l))
+  | ABreak l' => pres l l' /\ linv l' /\ s_end (ares l') = s_end (ares l) || at_term (al l')
+  | AErr l' e => cont_post l l' /\ err_at (al l') e
+  | APanic _ => False
+  end.
+
+Lemma flow_post_trans l1 l2 fl : cont_post l1 l2 -> flow_post l2 fl -> flow_post l1 fl.
+Proof.
+  intros H12 H. destruct fl as [l'|l'|l' e|n]; cbn [flow_post] in *.
+  - destruct H as [Hc Hl]. split; [apply (cont_post_trans _ _ _ H12 Hc)|].
+    destruct H12 as [P _]. pose proof (suffix_len _ _ (p_raw _ _ P)). lia.
+  - destruct H as [P2 [I2 E2]]. destruct H12 as [P1 [I1 E1]].
+    split; [apply (pres_trans _ _ _ P1 P2)|]. split; [exact I2|]. rewrite E2, E1. reflexivity.
+  - destruct H as [Hc He]. split; [apply (cont_post_trans _ _ _ H12 Hc)|exact He].
+  - exact H.
+Qed.
+
+(* ---- parse_payload ---- *)
+Definition pfin' (a : ast) (parsed' out' : bytes) (st' : sstate) (res : status) (cap' : option N) (consumed : N) : aflow :=
+  let raw_len := len (a_raw a) in
+  let payload_len := N.min (a_prem a) raw_len in
+  if payload_len <? consumed then APanic 20 else
+  let a'' := mkA (a_B a) (a_space a) parsed' (drop consumed (a_raw a)) out' (a_req a) (a_stream a)
+                 (a_prem a - consumed) (a_pad a) st' in
+  let l' := mkAL a'' res cap' in
+  if (a_prem a'' =? 0) && (consumed <? raw_len) then AContinue l' else ABreak l'.
+
+Lemma aparse_payload_eq l :
+  aparse_payload maxc l =
+  let a := al l in
+  let raw_len := len (a_raw a) in
+  let payload_len := N.min (a_prem a) raw_len in
+  let payload := take payload_len (a_raw a) in
+  match a_st a with
+  | SStream =>
+    match acap l with
+    | Some c => let n := N.min c payload_len in
+                pfin' a (a_parsed a) (a_out a) (a_st a) (add_stream (ares l) n (take n payload)) (Some (c - n)) n
+    | None => pfin' a (a_parsed a ++ payload) (a_out a) (a_st a) (add_stream (ares l) payload_len []) None payload_len
+    end
+  | SSkip => pfin' a (a_parsed a) (a_out a) (a_st a) (ares l) (acap l) payload_len
+  | SValues vars =>
+    let '(ps, rest) := nv_run payload in
+    let vars' := vars_of_pairs vars ps in
+    if raw_len <? a_prem a then
+      pfin' a (a_parsed a) (a_out a) (SValues vars') (ares l) (acap l) (payload_len - len rest)
+    else
+      let w := write_response vars' maxc in
+      pfin' a (a_parsed a) (a_out a ++ w) (SValues vars') (add_output (ares l) (len w)) (acap l) payload_len
+  end.
+Proof.
+  unfold aparse_payload, pfin', a_set. cbv zeta.
+  destruct (a_st (al l)); reflexivity.
+Qed.
+
+Definition pay_post (l : alstate) (fl : aflow) : Prop :=
+  match fl with
+  | AContinue l' => cont_post l l' /\ a_prem (al l') = 0
+  | ABreak l' => cont_post l l' /\ at_term (al l') = false
+  | _ => False
+  end.
+
+Lemma pfin_ok B sp parsed raw out rq strm prem pad st res cap parsed' out' st' res' cap' n :
+  let a := mkA B sp parsed raw out rq strm prem pad st in
+  let l := mkAL a res cap in
+  linv l ->
+  n <= N.min prem (len raw) ->
+  cur_st st' = cur_st st ->
+  s_dest res ++ parsed ++ (if cur_st st then take n raw else []) = s_dest res' ++ parsed' ->
+  (forall u, out ++ RA maxc (r_id rq) st prem pad (raw ++ u) =
+             out' ++ RA maxc (r_id rq) st' (prem - n) pad (drop n raw ++ u)) ->
+  (exists o, out' = out ++ o /\ s_output res' = s_output res + len o) ->
+  cap_rel l (mkAL (mkA B sp parsed' raw out' rq strm prem pad st') res' cap') ->
+  s_end res' = s_end res ->
+  len parsed' <= len parsed + n ->
+  pay_post l (pfin' a parsed' out' st' res' cap' n).
+Proof.
+  intros a l Hinv Hn Hcur HK HR Hout Hcap Hend Hsz.
+  unfold pfin'. unfold a. cbn [a_B a_space a_parsed a_raw a_out a_req a_stream a_prem a_pad a_st].
+  destruct (N.ltb_spec (N.min prem (len raw)) n) as [Hbad|_]; [lia|].
+  set (l' := mkAL (mkA B sp parsed' (drop n raw) out' rq strm (prem - n) pad st') res' cap').
+  assert (Hpres : pres l l').
+  { constructor; unfold l, l', a; cbn [al ares acap a_B a_space a_parsed a_raw a_out a_req a_stream a_prem a_pad a_st].
+    - reflexivity.
+    - reflexivity.
+    - reflexivity.
+    - reflexivity.
+    - rewrite len_drop. lia.
+    - apply suffix_drop.
+    - intros u. rewrite !K_eq. unfold rl, ri.
+      cbn [a_B a_space a_parsed a_raw a_out a_req a_stream a_prem a_pad a_st].
+      rewrite (CF_adv _ _ strm (cur_st st) prem pad (raw ++ u) n) by (rewrite ?len_app; lia).
+      rewrite (take_app_le n raw u) by lia. rewrite (drop_app_le n raw u) by lia.
+      rewrite Hcur. rewrite !app_assoc. rewrite app_assoc in HK. rewrite HK. reflexivity.
+    - intros sg u _. rewrite !F_eq. unfold rl, ri.
+      cbn [a_B a_space a_parsed a_raw a_out a_req a_stream a_prem a_pad a_st].
+      rewrite (CF_adv _ _ (Some sg) false prem pad (raw ++ u) n) by (rewrite ?len_app; lia).
+      rewrite (drop_app_le n raw u) by lia. reflexivity.
+    - intros u. rewrite !R_eq. unfold ri.
+      cbn [a_B a_space a_parsed a_raw a_out a_req a_stream a_prem a_pad a_st]. apply HR.
+    - exact Hout.
+    - exact Hcap. }
+  assert (Hlinv : linv l').
+  { destruct Hinv as [[Hok [Hp [Hq [Hb [Hs Hi]]]]] Hc].
+    unfold l, a in *. cbn [al acap a_B a_space a_parsed a_raw a_out a_req a_stream a_prem a_pad a_st] in *.
+    unfold a_ok in Hok. cbn [a_B a_space a_parsed a_raw] in Hok.
+    split.
+    - unfold l', a_inv, a_ok. cbn [al a_B a_space a_parsed a_raw a_out a_req a_stream a_prem a_pad a_st].
+      rewrite len_drop. repeat split.
+      + lia.
+      + lia.
+      + exact Hq.
+      + apply bytes_ok_drop. exact Hb.
+      + intros E. apply Hs. rewrite E in Hcur. destruct st; try discriminate Hcur. reflexivity.
+      + exact Hi.
+    - unfold l'. cbn [al acap a_parsed]. intros Hc'.
+      unfold cap_rel in Hcap. cbn [al ares acap a_parsed] in Hcap.
+      destruct cap as [c|].
+      + destruct Hcap as [d [c' [_ [Hp' _]]]]. rewrite Hp'. apply Hc. discriminate.
+      + destruct Hcap as [Hn' _]. contradiction. }
+  destruct ((prem - n =? 0) && (n <? len raw)) eqn:Hc.
+  - fold l'. cbn [pay_post]. apply andb_true_iff in Hc. destruct Hc as [Hc1 Hc2].
+    split; [split; [exact Hpres|split; [exact Hlinv|exact Hend]]|].
+    unfold l'. cbn [al a_prem]. apply N.eqb_eq. exact Hc1.
+  - fold l'. cbn [pay_post].
+    split; [split; [exact Hpres|split; [exact Hlinv|exact Hend]]|].
+    unfold at_term, at_terminator, l'. cbn [al a_prem a_pad a_raw].
+    apply andb_false_iff in Hc. destruct Hc as [Hc|Hc].
+    + rewrite Hc. reflexivity.
+    + apply N.ltb_ge in Hc. rewrite len_drop.
+      destruct (N.leb_spec HEADER_LEN (len raw - n)) as [H8|H8]; [unfold HEADER_LEN in H8; lia|].
+      rewrite !andb_false_r. reflexivity.
+Qed.
+
+Lemma cap_rel_same l l' : acap l' = acap l -> a_parsed (al l') = a_parsed (al l) ->
+  s_dest (ares l') = s_dest (ares l) -> s_stream (ares l') = s_stream (ares l) -> cap_rel l l'.
+Proof.
+  intros Hc Hp Hd Hs. unfold cap_rel. rewrite Hc, Hp, Hd, Hs. destruct (acap l) as [c|].
+  - exists [], c. rewrite app_nil_r. change (len (@nil N)) with 0. repeat split; try reflexivity; lia.
+  - repeat split. exists []. rewrite app_nil_r. change (len (@nil N)) with 0. split; [reflexivity|lia].
+Qed.
+
+Lemma RA_adv_app rid st prem pad raw u n : not_values st -> n <= prem -> n <= len raw ->
+  RA maxc rid st prem pad (raw ++ u) = RA maxc rid st (prem - n) pad (drop n raw ++ u).
+Proof.
+  intros Hst Hn Hr. rewrite (RA_adv maxc rid st prem pad (raw ++ u) n Hst Hn) by (rewrite len_app; lia).
+  rewrite (drop_app_le n raw u) by lia. reflexivity.
+Qed.
+
+Lemma payload_ok l : linv l -> 0 < a_prem (al l) -> pay_post l (aparse_payload maxc l).
+Proof.
+  intros Hinv Hp. rewrite aparse_payload_eq.
+  destruct l as [a res cap]. destruct a as [B sp parsed raw out rq strm prem pad st].
+  cbn [al ares acap a_B a_space a_parsed a_raw a_out a_req a_stream a_prem a_pad a_st] in *. cbv zeta.
+  assert (Hprem : prem < 65536).
+  { destruct Hinv as [[_ [H _]] _]. exact H. }
+  set (pl := N.min prem (len raw)).
+  assert (Hpl : pl = N.min prem (len raw)) by reflexivity.
+  destruct st as [| |vars].
+  - destruct cap as [c|].
+    + (* Stream into dest *)
+      assert (Hparsed : parsed = []).
+      { destruct Hinv as [_ H]. apply H. discriminate. }
+      subst parsed.
+      set (n := N.min c pl).
+      apply pfin_ok.
+      * exact Hinv.
+      * lia.
+      * reflexivity.
+      * cbn [add_stream s_dest cur_st app]. rewrite take_take.
+        replace (N.min n pl) with n by lia. rewrite !app_nil_r. reflexivity.
+      * intros u. f_equal. apply RA_adv_app; [exact I|lia|lia].
+      * exists []. rewrite app_nil_r. change (len (@nil N)) with 0. cbn [add_stream s_output]. split; [reflexivity|lia].
+      * unfold cap_rel. cbn [al ares acap a_parsed add_stream s_dest s_stream].
+        exists (take n (take pl raw)), (c - n). rewrite !len_take. repeat split; lia.
+      * reflexivity.
+      * lia.
+    + (* Stream into the stream buffer *)
+      apply pfin_ok.
+      * exact Hinv.
+      * lia.
+      * reflexivity.
+      * cbn [add_stream s_dest cur_st]. rewrite app_nil_r. reflexivity.
+      * intros u. f_equal. apply RA_adv_app; [exact I|lia|lia].
+      * exists []. rewrite app_nil_r. change (len (@nil N)) with 0. cbn [add_stream s_output]. split; [reflexivity|lia].
+      * unfold cap_rel. cbn [al ares acap a_parsed add_stream s_dest s_stream].
+        split; [reflexivity|]. split; [apply app_nil_r|].
+        exists (take pl raw). rewrite len_take. split; [reflexivity|lia].
+      * reflexivity.
+      * rewrite len_app, len_take. lia.
+  - (* Skip *)
+    apply pfin_ok.
+    + exact Hinv.
+    + lia.
+    + reflexivity.
+    + cbn [cur_st]. rewrite app_nil_r. reflexivity.
+    + intros u. f_equal. apply RA_adv_app; [exact I|lia|lia].
+    + exists []. rewrite app_nil_r. change (len (@nil N)) with 0. split; [reflexivity|lia].
+    + apply cap_rel_same; reflexivity.
+    + reflexivity.
+    + lia.
+  - (* Values *)
+    destruct (nv_run (take pl raw)) as [ps rest] eqn:Hrun.
+    destruct (N.ltb_spec (len raw) prem) as [Hlt|Hge].
+    + (* body incomplete *)
+      assert (Hplr : pl = len raw) by lia.
+      rewrite Hplr in Hrun. rewrite (take_all (len raw) raw) in Hrun by lia.
+      destruct (nv_run_rest raw) as [pre [Hpre _]]. rewrite Hrun in Hpre. cbn [snd] in Hpre.
+      assert (Hlen : len raw = len pre + len rest) by (rewrite Hpre at 1; apply len_app).
+      apply pfin_ok.
+      * exact Hinv.
+      * lia.
+      * reflexivity.
+      * cbn [cur_st]. rewrite app_nil_r. reflexivity.
+      * intros u. f_equal.
+        rewrite (RA_adv_values maxc (r_id rq) vars prem pad raw u ps rest Hrun Hlt Hprem).
+        rewrite Hplr. f_equal. f_equal.
+        replace (len raw - len rest) with (len pre) by lia.
+        rewrite Hpre at 1. rewrite drop_len_app. reflexivity.
+      * exists []. rewrite app_nil_r. change (len (@nil N)) with 0. split; [reflexivity|lia].
+      * apply cap_rel_same; reflexivity.
+      * reflexivity.
+      * lia.
+    + (* body complete: the reply is written *)
+      assert (Hplr : pl = prem) by lia.
+      rewrite Hplr in *.
+      apply pfin_ok.
+      * exact Hinv.
+      * lia.
+      * reflexivity.
+      * cbn [cur_st add_output s_dest]. rewrite app_nil_r. reflexivity.
+      * intros u.
+        rewrite (RA_adv_full maxc (r_id rq) (SValues vars) (SValues (vars_of_pairs vars ps)) prem pad (raw ++ u))
+          by (rewrite ?len_app; lia).
+        rewrite (take_app_le prem raw u) by lia. rewrite (drop_app_le prem raw u) by lia.
+        cbn [resp]. rewrite Hrun. cbn [fst]. rewrite N.sub_diag, app_assoc. reflexivity.
+      * eexists. split; [reflexivity|]. cbn [add_output s_output]. reflexivity.
+      * apply cap_rel_same; reflexivity.
+      * reflexivity.
+      * lia.
+Qed.
+
+(* ---- parse_head ---- *)
+Definition hgo (l : alstate) (st : sstate) (cl pl : N) (out : bytes) (added : N) : aflow :=
+  let a := al l in
+  AContinue (mkAL (mkA (a_B a) (a_space a) (a_parsed a) (drop HEADER_LEN (a_raw a)) out (a_req a) (a_stream a) cl pl st)
+                  (add_output (ares l) added) (acap l)).
+
+Lemma aparse_head_eq l :
+  aparse_head l =
+  let a := al l in
+  if negb (a_boundary a) then APanic 30 else
+  if len (a_raw a) <? HEADER_LEN then ABreak l else
+  let head := take HEADER_LEN (a_raw a) in
+  match hdr_decode head with
+  | HBadType t =>
+    let id := be16 (nthN head 2) (nthN head 3) in
+    hgo l SSkip (be16 (nthN head 4) (nthN head 5)) (nthN head 6) (a_out a ++ unk_record t id) 16
+  | HBadVersion v => AErr l (EUnknownVersion v)
+  | HOk t id cl pl =>
+    let rid := r_id (a_req a) in
+    if is_input_stream t && (id =? rid) then
+      match cmp_input_streams (r_role (a_req a)) t (a_stream a) with
+      | None => APanic 32
+      | Some Eq => if negb (cl =? 0) then hgo l SStream cl pl (a_out a) 0
+                   else ABreak (mkAL a (set_end (ares l)) (acap l))
+      | Some Lt => hgo l SSkip cl pl (a_out a) 0
+      | Some Gt => ABreak (mkAL a (set_end (ares l)) (acap l))
+      end
+    else if (t =? RT_AbortRequest) && (id =? rid) then AErr l EAbortRequest
+    else if (t =? RT_BeginRequest) && negb (id =? rid) then
+      hgo l SSkip cl pl (a_out a ++ end_record 0 PS_CantMpxConn id) 16
+    else if (t =? RT_GetValues) && hdr_is_management t id then hgo l (SValues 0) cl pl (a_out a) 0
+    else hgo l SSkip cl pl (a_out a) 0
+  end.
+Proof. reflexivity. Qed.
+
+Lemma hgo_ok B sp parsed raw out rq strm st res cap st' cl pl o added :
+  let a := mkA B sp parsed raw out rq strm 0 0 st in
+  let l := mkAL a res cap in
+  added = len o ->
+  linv l -> HEADER_LEN <= len raw -> cl < 65536 -> pl < 256 ->
+  (st' = SStream -> strm <> None) ->
+  (forall u, CF (r_role rq) (r_id rq) strm (cur_st st) 0 0 (raw ++ u) =
+             CF (r_role rq) (r_id rq) strm (cur_st st') cl pl (drop HEADER_LEN raw ++ u)) ->
+  (forall sg u, later_stream a sg ->
+             CF (r_role rq) (r_id rq) (Some sg) false 0 0 (raw ++ u) =
+             CF (r_role rq) (r_id rq) (Some sg) false cl pl (drop HEADER_LEN raw ++ u)) ->
+  (forall u, RA maxc (r_id rq) st 0 0 (raw ++ u) = o ++ RA maxc (r_id rq) st' cl pl (drop HEADER_LEN raw ++ u)) ->
+  flow_post l (hgo l st' cl pl (out ++ o) added).
+Proof.
+  intros a l -> Hinv H8 Hcl Hpl Hst HK HF HR.
+  unfold hgo. cbn [flow_post].
+  unfold l at 2 3 4 5 6 7 8 9. unfold a at 1 2 3 4 5 6.
+  cbn [al ares acap a_B a_space a_parsed a_raw a_out a_req a_stream a_prem a_pad a_st].
+  set (l' := mkAL (mkA B sp parsed (drop HEADER_LEN raw) (out ++ o) rq strm cl pl st') (add_output res (len o)) cap).
+  assert (Hpres : pres l l').
+  { constructor; unfold l, l', a; cbn [al ares acap a_B a_space a_parsed a_raw a_out a_req a_stream a_prem a_pad a_st add_output s_dest s_output].
+    - reflexivity.
+    - reflexivity.
+    - reflexivity.
+    - reflexivity.
+    - rewrite len_drop. lia.
+    - apply suffix_drop.
+    - intros u. rewrite !K_eq. unfold rl, ri.
+      cbn [a_B a_space a_parsed a_raw a_out a_req a_stream a_prem a_pad a_st]. rewrite HK. reflexivity.
+    - intros sg u Hl. rewrite !F_eq. unfold rl, ri.
+      cbn [a_B a_space a_parsed a_raw a_out a_req a_stream a_prem a_pad a_st]. apply HF. exact Hl.
+    - intros u. rewrite !R_eq. unfold ri.
+      cbn [a_B a_space a_parsed a_raw a_out a_req a_stream a_prem a_pad a_st]. rewrite HR, app_assoc. reflexivity.
+    - exists o. split; reflexivity.
+    - apply cap_rel_same; reflexivity. }
+  assert (Hlinv : linv l').
+  { destruct Hinv as [[Hok [Hp [Hq [Hb [Hs Hi]]]]] Hc].
+    unfold l, a in *. cbn [al acap a_B a_space a_parsed a_raw a_out a_req a_stream a_prem a_pad a_st] in *.
+    unfold a_ok in Hok. cbn [a_B a_space a_parsed a_raw] in Hok.
+    split.
+    - unfold l', a_inv, a_ok. cbn [al a_B a_space a_parsed a_raw a_out a_req a_stream a_prem a_pad a_st].
+      rewrite len_drop. repeat split.
+      + lia.
+      + exact Hcl.
+      + exact Hpl.
+      + apply bytes_ok_drop. exact Hb.
+      + exact Hst.
+      + exact Hi.
+    - unfold l'. cbn [al acap a_parsed]. exact Hc. }
+  split; [split; [exact Hpres|split; [exact Hlinv|reflexivity]]|].
+  unfold l', l, a. cbn [al a_raw]. rewrite len_drop. unfold HEADER_LEN in *. lia.
+Qed.
+
+(* the header view of the spec functions when the header lies inside raw *)
+Lemma CF_head_app role id sg cur raw u : HEADER_LEN <= len raw ->
+  CF role id sg cur 0 0 (raw ++ u) = cf_hd role id sg (take HEADER_LEN raw) (drop HEADER_LEN raw ++ u).
+Proof.
+  intros H. rewrite CF_head by (rewrite len_app; lia).
+  rewrite (take_app_le HEADER_LEN raw u H), (drop_app_le HEADER_LEN raw u H). reflexivity.
+Qed.
+
+Lemma RA_head_app rid st raw u : HEADER_LEN <= len raw ->
+  RA maxc rid st 0 0 (raw ++ u) = ra_hd maxc rid (take HEADER_LEN raw) (drop HEADER_LEN raw ++ u).
+Proof.
+  intros H. rewrite RA_head by (rewrite len_app; lia).
+  rewrite (take_app_le HEADER_LEN raw u H), (drop_app_le HEADER_LEN raw u H). reflexivity.
+Qed.
+
+Lemma RA_nv rid st st' prem pad w : not_values st -> not_values st' ->
+  RA maxc rid st prem pad w = RA maxc rid st' prem pad w.
+Proof.
+  intros H1 H2. rewrite (RA_eq maxc rid st), (RA_eq maxc rid st'). unfold ra_body.
+  destruct st; destruct st'; try contradiction; reflexivity.
+Qed.
+
+Lemma hgo_ok0 B sp parsed raw out rq strm st res cap st' cl pl :
+  let a := mkA B sp parsed raw out rq strm 0 0 st in
+  let l := mkAL a res cap in
+  linv l -> HEADER_LEN <= len raw -> cl < 65536 -> pl < 256 ->
+  (st' = SStream -> strm <> None) ->
+  (forall u, CF (r_role rq) (r_id rq) strm (cur_st st) 0 0 (raw ++ u) =
+             CF (r_role rq) (r_id rq) strm (cur_st st') cl pl (drop HEADER_LEN raw ++ u)) ->
+  (forall sg u, later_stream a sg ->
+             CF (r_role rq) (r_id rq) (Some sg) false 0 0 (raw ++ u) =
+             CF (r_role rq) (r_id rq) (Some sg) false cl pl (drop HEADER_LEN raw ++ u)) ->
+  (forall u, RA maxc (r_id rq) st 0 0 (raw ++ u) = RA maxc (r_id rq) st' cl pl (drop HEADER_LEN raw ++ u)) ->
+  flow_post l (hgo l st' cl pl out 0).
+Proof.
+  intros a l Hinv H8 Hcl Hpl Hst HK HF HR.
+  pose proof (hgo_ok B sp parsed raw out rq strm st res cap st' cl pl [] 0 eq_refl Hinv H8 Hcl Hpl Hst HK HF HR) as H.
+  cbv zeta in H. rewrite app_nil_r in H. exact H.
+Qed.
+
+Lemma cf_hd_other role id sg head rest t hid cl pl : hdr_decode head = HOk t hid cl pl ->
+  is_input_stream t && (hid =? id) = false -> (t =? RT_AbortRequest) && (hid =? id) = false ->
+  cf_hd role id sg head rest = CF role id sg false cl pl rest.
+Proof. intros Hd H1 H2. unfold cf_hd. rewrite Hd, H1, H2. reflexivity. Qed.
+
+Lemma cf_hd_badtype role id sg head rest t : hdr_decode head = HBadType t ->
+  cf_hd role id sg head rest = CF role id sg false (be16 (nthN head 4) (nthN head 5)) (nthN head 6) rest.
+Proof. intros Hd. unfold cf_hd. rewrite Hd. reflexivity. Qed.
+
+Lemma cf_hd_stream role id sg head rest t hid cl pl : hdr_decode head = HOk t hid cl pl ->
+  is_input_stream t && (hid =? id) = true ->
+  cf_hd role id sg head rest =
+  match cmp_input_streams role t sg with
+  | Some Eq => if cl =? 0 then [] else CF role id sg true cl pl rest
+  | Some Lt => CF role id sg false cl pl rest
+  | _ => []
+  end.
+Proof. intros Hd H1. unfold cf_hd. rewrite Hd, H1. reflexivity. Qed.
+
+Lemma ra_hd_stream rid head rest t hid cl pl : hdr_decode head = HOk t hid cl pl ->
+  is_input_stream t = true -> ra_hd maxc rid head rest = RA maxc rid SSkip cl pl rest.
+Proof.
+  intros Hd Ht. unfold ra_hd. rewrite Hd.
+  destruct (input_not_others t Ht) as [H1 [H2 H3]]. rewrite H1, H2, H3. reflexivity.
+Qed.
+
+Lemma pres_set_end a res cap : pres (mkAL a res cap) (mkAL a (set_end res) cap).
+Proof.
+  constructor; cbn [al ares acap set_end s_dest s_output]; try reflexivity; try lia.
+  - apply suffix_refl.
+  - exists []. rewrite app_nil_r. change (len (@nil N)) with 0. split; [reflexivity|lia].
+  - apply cap_rel_same; reflexivity.
+Qed.
+
+Lemma head_ok l : linv l -> a_prem (al l) = 0 -> a_pad (al l) = 0 -> flow_post l (aparse_head l).
+Proof.
+  intros Hinv Hp Hq. rewrite aparse_head_eq.
+  destruct l as [a res cap]. destruct a as [B sp parsed raw out rq strm prem pad st].
+  cbn [al ares acap a_B a_space a_parsed a_raw a_out a_req a_stream a_prem a_pad a_st] in *. subst prem pad. cbv zeta.
+  unfold a_boundary. cbn [a_prem a_pad]. change ((0 =? 0) && (0 =? 0)) with true. cbn [negb].
+  pose proof Hinv as [[_ [_ [_ [Hb [_ Hi]]]]] _].
+  cbn [al a_raw a_stream] in Hb, Hi.
+  destruct (N.ltb_spec (len raw) HEADER_LEN) as [Hshort|H8].
+  { cbn [flow_post]. split; [apply pres_refl|]. split; [exact Hinv|].
+    unfold at_term, at_terminator. cbn [al a_raw a_prem a_pad].
+    destruct (N.leb_spec HEADER_LEN (len raw)) as [Hl|_]; [lia|].
+    rewrite andb_false_r. cbn [andb]. rewrite orb_false_r. reflexivity. }
+  set (head := take HEADER_LEN raw).
+  assert (Hhb : bytes_ok head) by (apply bytes_ok_take; exact Hb).
+  assert (Hcl0 : be16 (nthN head 4) (nthN head 5) < 65536) by (apply be16_lt; apply nthN_lt; exact Hhb).
+  assert (Hpl0 : nthN head 6 < 256) by (apply nthN_lt; exact Hhb).
+  destruct (hdr_decode head) as [t hid cl pl|v|t] eqn:Hd.
+  - (* HOk *)
+    destruct (hdr_decode_ok_inv _ _ _ _ _ Hd) as [Et [Eid [Ecl Epl]]].
+    assert (Hcl : cl < 65536) by (rewrite Ecl; exact Hcl0).
+    assert (Hpl : pl < 256) by (rewrite Epl; exact Hpl0).
+    destruct (is_input_stream t && (hid =? r_id rq)) eqn:Hin.
+    + (* a record of an input stream of this request *)
+      pose proof Hin as Hin'. apply andb_true_iff in Hin'. destruct Hin' as [Ht Hid].
+      destruct (cmp_input_streams (r_role rq) t strm) as [[| |]|] eqn:Hcmp.
+      * (* Lt: earlier stream, skipped *)
+        apply hgo_ok0; try assumption.
+        -- discriminate.
+        -- intros u. rewrite (CF_head_app _ _ _ _ raw u H8). fold head.
+           rewrite (cf_hd_stream _ _ _ _ _ _ _ _ _ Hd Hin), Hcmp. reflexivity.
+        -- intros sg u Hl. rewrite (CF_head_app _ _ _ _ raw u H8). fold head.
+           rewrite (cf_hd_stream _ _ _ _ _ _ _ _ _ Hd Hin).
+           unfold later_stream in Hl. cbn [a_stream a_req] in Hl. destruct strm as [s|]; [|contradiction].
+           rewrite (cmp_later (r_role rq) t s sg Ht Hl); [reflexivity|right; exact Hcmp].
+        -- intros u. rewrite (RA_head_app _ _ raw u H8). fold head.
+           rewrite (ra_hd_stream _ _ _ _ _ _ _ Hd Ht). reflexivity.
+      * (* Eq: the active stream *)
+        destruct (N.eqb_spec cl 0) as [Hcl00|Hcln0]; cbn [negb].
+        -- (* end of stream *)
+           cbn [flow_post]. split; [apply pres_set_end|]. split; [exact Hinv|].
+           cbn [ares set_end s_end al].
+           unfold at_term, at_terminator, rl, ri. cbn [a_raw a_prem a_pad a_req a_stream]. fold head.
+           destruct (N.leb_spec HEADER_LEN (len raw)) as [_|Hl]; [|lia].
+           rewrite Hd, Ht, Hid, Hcmp. rewrite Hcl00. rewrite orb_true_r. reflexivity.
+        -- apply hgo_ok0; try assumption.
+           ++ intros _ E. rewrite E in Hcmp. discriminate Hcmp.
+           ++ intros u. rewrite (CF_head_app _ _ _ _ raw u H8). fold head.
+              rewrite (cf_hd_stream _ _ _ _ _ _ _ _ _ Hd Hin), Hcmp.
+              destruct (N.eqb_spec cl 0) as [E|_]; [contradiction|]. reflexivity.
+           ++ intros sg u Hl. rewrite (CF_head_app _ _ _ _ raw u H8). fold head.
+              rewrite (cf_hd_stream _ _ _ _ _ _ _ _ _ Hd Hin).
+              unfold later_stream in Hl. cbn [a_stream a_req] in Hl. destruct strm as [s|]; [|contradiction].
+              rewrite (cmp_later (r_role rq) t s sg Ht Hl); [reflexivity|left; exact Hcmp].
+           ++ intros u. rewrite (RA_head_app _ _ raw u H8). fold head.
+              rewrite (ra_hd_stream _ _ _ _ _ _ _ Hd Ht). apply RA_nv; exact I.
+      * (* Gt: a later stream begins *)
+        cbn [flow_post]. split; [apply pres_set_end|]. split; [exact Hinv|].
+        cbn [ares set_end s_end al].
+        unfold at_term, at_terminator, rl, ri. cbn [a_raw a_prem a_pad a_req a_stream]. fold head.
+        destruct (N.leb_spec HEADER_LEN (len raw)) as [_|Hl]; [|lia].
+        rewrite Hd, Ht, Hid, Hcmp. rewrite orb_true_r. reflexivity.
+      * (* the comparison is defined *)
+        destruct strm as [s|]; [|discriminate Hcmp].
+        exact (cmp_some _ _ _ Ht Hi Hcmp).
+    + destruct ((t =? RT_AbortRequest) && (hid =? r_id rq)) eqn:Hab.
+      { cbn [flow_post]. split; [split; [apply pres_refl|split; [exact Hinv|reflexivity]]|].
+        unfold err_at, head_err, ri. cbn [al a_prem a_pad a_raw a_req]. fold head. rewrite Hd, Hin, Hab.
+        repeat split; try reflexivity. exact H8. }
+      assert (HKo : forall sg cur u, CF (r_role rq) (r_id rq) sg cur 0 0 (raw ++ u) =
+                                  CF (r_role rq) (r_id rq) sg false cl pl (drop HEADER_LEN raw ++ u)).
+      { intros sg cur u. rewrite (CF_head_app _ _ _ _ raw u H8). fold head.
+        apply (cf_hd_other _ _ _ _ _ _ _ _ _ Hd Hin Hab). }
+      destruct ((t =? RT_BeginRequest) && negb (hid =? r_id rq)) eqn:Hbg.
+      { apply hgo_ok; try assumption.
+        - reflexivity.
+        - discriminate.
+        - intros u. apply HKo.
+        - intros sg u _. apply HKo.
+        - intros u. rewrite (RA_head_app _ _ raw u H8). fold head. unfold ra_hd. rewrite Hd, Hab, Hbg. reflexivity. }
+      destruct ((t =? RT_GetValues) && hdr_is_management t hid) eqn:Hgv.
+      { apply hgo_ok0; try assumption.
+        - discriminate.
+        - intros u. apply HKo.
+        - intros sg u _. apply HKo.
+        - intros u. rewrite (RA_head_app _ _ raw u H8). fold head. unfold ra_hd. rewrite Hd, Hab, Hbg, Hgv. reflexivity. }
+      apply hgo_ok0; try assumption.
+      * discriminate.
+      * intros u. apply HKo.
+      * intros sg u _. apply HKo.
+      * intros u. rewrite (RA_head_app _ _ raw u H8). fold head. unfold ra_hd. rewrite Hd, Hab, Hbg, Hgv.
+        apply RA_nv; exact I.
+  - (* unknown version *)
+    cbn [flow_post]. split; [split; [apply pres_refl|split; [exact Hinv|reflexivity]]|].
+    unfold err_at, head_err, ri. cbn [al a_prem a_pad a_raw a_req]. fold head. rewrite Hd.
+    repeat split; try reflexivity. exact H8.
+  - (* unknown type *)
+    assert (HKo : forall sg cur u, CF (r_role rq) (r_id rq) sg cur 0 0 (raw ++ u) =
+        CF (r_role rq) (r_id rq) sg false (be16 (nthN head 4) (nthN head 5)) (nthN head 6) (drop HEADER_LEN raw ++ u)).
+    { intros sg cur u. rewrite (CF_head_app _ _ _ _ raw u H8). fold head. apply (cf_hd_badtype _ _ _ _ _ _ Hd). }
+    apply hgo_ok; try assumption.
+    + reflexivity.
+    + discriminate.
+    + intros u. apply HKo.
+    + intros sg u _. apply HKo.
+    + intros u. rewrite (RA_head_app _ _ raw u H8). fold head. unfold ra_hd. rewrite Hd. reflexivity.
+Qed.
+
+(* ---- the padding stage and one whole iteration ---- *)
+Lemma RA_pad_adv rid st pad w n : n <= pad -> n <= len w ->
+  RA maxc rid st 0 pad w = RA maxc rid st 0 (pad - n) (drop n w).
+Proof.
+  intros Hn Hw.
+  destruct (N.eq_dec n 0) as [->|Hn0].
+  { rewrite drop_0, N.sub_0_r. reflexivity. }
+  rewrite (RA_pad maxc rid st pad) by lia.
+  destruct (N.eq_dec n pad) as [->|Hne].
+  - rewrite N.sub_diag.
+    destruct (N.leb_spec (len w) pad) as [Hl|Hl].
+    + rewrite (drop_all pad w) by lia. rewrite RA_nil. reflexivity.
+    + apply RA_st0.
+  - rewrite (RA_pad maxc rid st (pad - n)) by lia.
+    rewrite len_drop, drop_drop.
+    replace (n + (pad - n)) with pad by lia.
+    destruct (N.leb_spec (len w - n) (pad - n)); destruct (N.leb_spec (len w) pad); try reflexivity; lia.
+Qed.
+
+Lemma pad_ok B sp parsed raw out rq strm pad st res cap n :
+  let l := mkAL (mkA B sp parsed raw out rq strm 0 pad st) res cap in
+  linv l -> n <= pad -> n <= len raw ->
+  cont_post l (mkAL (mkA B sp parsed (drop n raw) out rq strm 0 (pad - n) st) res cap).
+Proof.
+  intros l Hinv Hn Hr.
+  set (l' := mkAL (mkA B sp parsed (drop n raw) out rq strm 0 (pad - n) st) res cap).
+  assert (Hpres : pres l l').
+  { constructor; unfold l, l'; cbn [al ares acap a_B a_space a_parsed a_raw a_out a_req a_stream a_prem a_pad a_st].
+    - reflexivity.
+    - reflexivity.
+    - reflexivity.
+    - reflexivity.
+    - rewrite len_drop. lia.
+    - apply suffix_drop.
+    - intros u. rewrite !K_eq. unfold rl, ri.
+      cbn [a_B a_space a_parsed a_raw a_out a_req a_stream a_prem a_pad a_st].
+      rewrite (CF_pad_adv _ _ strm (cur_st st) pad (raw ++ u) n) by (rewrite ?len_app; lia).
+      rewrite (drop_app_le n raw u) by lia. reflexivity.
+    - intros sg u _. rewrite !F_eq. unfold rl, ri.
+      cbn [a_B a_space a_parsed a_raw a_out a_req a_stream a_prem a_pad a_st].
+      rewrite (CF_pad_adv _ _ (Some sg) false pad (raw ++ u) n) by (rewrite ?len_app; lia).
+      rewrite (drop_app_le n raw u) by lia. reflexivity.
+    - intros u. rewrite !R_eq. unfold ri.
+      cbn [a_B a_space a_parsed a_raw a_out a_req a_stream a_prem a_pad a_st].
+      rewrite (RA_pad_adv _ st pad (raw ++ u) n) by (rewrite ?len_app; lia).
+      rewrite (drop_app_le n raw u) by lia. reflexivity.
+    - exists []. rewrite app_nil_r. change (len (@nil N)) with 0. split; [reflexivity|lia].
+    - apply cap_rel_same; reflexivity. }
+  split; [exact Hpres|]. split; [|reflexivity].
+  destruct Hinv as [[Hok [Hp [Hq [Hb [Hs Hi]]]]] Hc].
+  unfold l in *. cbn [al acap a_B a_space a_parsed a_raw a_out a_req a_stream a_prem a_pad a_st] in *.
+  unfold a_ok in Hok. cbn [a_B a_space a_parsed a_raw] in Hok.
+  split.
+  - unfold l', a_inv, a_ok. cbn [al a_B a_space a_parsed a_raw a_out a_req a_stream a_prem a_pad a_st].
+    rewrite len_drop. repeat split.
+    + lia.
+    + lia.
+    + apply bytes_ok_drop. exact Hb.
+    + exact Hs.
+    + exact Hi.
+  - unfold l'. cbn [al acap a_parsed]. exact Hc.
+Qed.
+
+Definition after_payload (l : alstate) : aflow :=
+  let a := al l in
+  if 0 <? a_pad a then
+    if negb (a_prem a =? 0) then APanic 40 else
+    let raw_len := len (a_raw a) in
+    if raw_len <=? a_pad a then
+      ABreak (mkAL (a_set a (a_parsed a) [] (a_out a) (a_prem a) (a_pad a - raw_len) (a_st a)) (ares l) (acap l))
+    else
+      aparse_head (mkAL (a_set a (a_parsed a) (drop (a_pad a) (a_raw a)) (a_out a) (a_prem a) 0 (a_st a)) (ares l) (acap l))
+  else aparse_head l.
+
+Lemma aparse_iter_eq l :
+  aparse_iter maxc l =
+  if 0 <? a_prem (al l) then
+    match aparse_payload maxc l with
+    | AContinue l' => after_payload l'
+    | x => x
+    end
+  else after_payload l.
+Proof. reflexivity. Qed.
+
+Lemma at_term_short a : len (a_raw a) < HEADER_LEN -> at_term a = false.
+Proof.
+  intros H. unfold at_term, at_terminator.
+  destruct (N.leb_spec HEADER_LEN (len (a_raw a))) as [Hl|_]; [lia|].
+  rewrite andb_false_r. reflexivity.
+Qed.
+
+Lemma after_payload_ok l : linv l -> a_prem (al l) = 0 -> flow_post l (after_payload l).
+Proof.
+  intros Hinv Hp. unfold after_payload.
+  destruct l as [a res cap]. destruct a as [B sp parsed raw out rq strm prem pad st].
+  cbn [al ares acap a_B a_space a_parsed a_raw a_out a_req a_stream a_prem a_pad a_st] in *. subst prem.
+  cbv zeta. unfold a_set. cbn [a_B a_space a_parsed a_raw a_out a_req a_stream a_prem a_pad a_st].
+  destruct (N.ltb_spec 0 pad) as [Hq|Hq].
+  - change (negb (0 =? 0)) with false. cbv iota.
+    destruct (N.leb_spec (len raw) pad) as [Hl|Hl].
+    + cbn [flow_post].
+      pose proof (pad_ok B sp parsed raw out rq strm pad st res cap (len raw) Hinv Hl (N.le_refl _)) as [P [I E]].
+      rewrite (drop_all (len raw) raw) in P, I by lia.
+      split; [exact P|]. split; [exact I|].
+      rewrite at_term_short; [rewrite orb_false_r; reflexivity|].
+      cbn [al a_raw]. change (len (@nil N)) with 0. unfold HEADER_LEN. lia.
+    + pose proof (pad_ok B sp parsed raw out rq strm pad st res cap pad Hinv (N.le_refl _) ltac:(lia)) as HC.
+      rewrite N.sub_diag in HC.
+      apply (flow_post_trans _ _ _ HC).
+      apply head_ok; [apply HC|reflexivity|reflexivity].
+  - assert (pad = 0) by lia. subst pad.
+    apply head_ok; [exact Hinv|reflexivity|reflexivity].
+Qed.
+
+Lemma iter_ok l : linv l -> flow_post l (aparse_iter maxc l).
+Proof.
+  intros Hinv. rewrite aparse_iter_eq.
+  destruct (N.ltb_spec 0 (a_prem (al l))) as [Hp|Hp].
+  - pose proof (payload_ok l Hinv Hp) as H.
+    destruct (aparse_payload maxc l) as [l'|l'|l' e|n]; cbn [pay_post] in H.
+    + destruct H as [HC Hp']. apply (flow_post_trans _ _ _ HC).
+      apply after_payload_ok; [apply HC|exact Hp'].
+    + destruct H as [[P [I E]] Ht]. cbn [flow_post]. split; [exact P|]. split; [exact I|].
+      rewrite Ht, orb_false_r. exact E.
+    + contradiction.
+    + contradiction.
+  - apply after_payload_ok; [exact Hinv|lia].
+Qed.
+
+(* ---- the loop ---- *)
+Definition loop_post (l : alstate) (fl : aflow) : Prop :=
+  match fl with
+  | AContinue _ => False
+  | ABreak l' => pres l l' /\ linv l' /\ s_end (ares l') = s_end (ares l) || at_term (al l')
+  | AErr l' e => cont_post l l' /\ err_at (al l') e
+  | APanic _ => False
+  end.
+
+Lemma loop_ok fuel : forall l, linv l -> (length (a_raw (al l)) < fuel)%nat ->
+  loop_post l (aparse_loop maxc fuel l).
+Proof.
+  induction fuel as [|f IH]; intros l Hinv Hf; [lia|].
+  cbn [aparse_loop].
+  destruct (a_raw (al l)) as [|b r] eqn:Eraw.
+  - cbn [loop_post]. split; [apply pres_refl|]. split; [exact Hinv|].
+    rewrite at_term_short; [rewrite orb_false_r; reflexivity|].
+    rewrite Eraw. change (len (@nil N)) with 0. unfold HEADER_LEN. lia.
+  - pose proof (iter_ok l Hinv) as H.
+    destruct (aparse_iter maxc l) as [l'|l'|l' e|n]; cbn [flow_post] in H.
+    + destruct H as [HC Hlen].
+      assert (Hf' : (length (a_raw (al l')) < f)%nat).
+      { rewrite Eraw in Hlen. unfold len in Hlen. cbn [length] in *. lia. }
+      pose proof (IH l' ltac:(apply HC) Hf') as H2.
+      destruct (aparse_loop maxc f l') as [l2|l2|l2 e|n]; cbn [loop_post] in *.
+      * exact H2.
+      * destruct H2 as [P2 [I2 E2]]. destruct HC as [P1 [I1 E1]].
+        split; [apply (pres_trans _ _ _ P1 P2)|]. split; [exact I2|]. rewrite E2, E1. reflexivity.
+      * destruct H2 as [HC2 He]. split; [apply (cont_post_trans _ _ _ HC HC2)|exact He].
+      * exact H2.
+    + exact H.
+    + exact H.
+    + exact H.
+Qed.
+
+End Machine.
